@@ -449,7 +449,7 @@ def run(ctx):
     from rules import c16
     c16.rule_string(ctx, R="C18/strings")
     from rules import preds
-    preds.run(ctx, PROPERTY, ["auxv_is_complete"])   # "caller-supplied values first, the kernel's otherwise" needs the lookup to run whenever something is missing
+    preds.run(ctx, PROPERTY, ["auxv_is_complete", "dso-name-terminator"])   # "caller-supplied values first, the kernel's otherwise" needs the lookup to run whenever something is missing
     rule_stream_file_table(ctx)
     rule_meminfo(ctx)
     rule_handles(ctx)
